@@ -198,6 +198,11 @@ def judge(ctx, results, monitors, label="trav"):
         elif r["disagree"]:
             ctx.disagree(f"trace#{r['ident']}:block{r['disagree']['block']}", {"spec": spec, "ident": list(r["ident"])},
                          r["disagree"]["model"], r["disagree"]["impl"])
+        if "owner" in monitors:
+            for what in r.get("foreign_sessions", [])[:2]:
+                ctx.violate("owner:session-of-another-worker" if not substring_ids(spec) else
+                            "owner:worker-id-substring-of-another", what,
+                            {"kind": label, "spec": spec, "monitor": "owner", "item": what})
         for m in monitors:
             v = r["mon"].get(m, "ok")
             if v != "ok":
